@@ -1,6 +1,7 @@
 import Props.Skeleton
 import Lemmas.SkelChain
 import Lemmas.EngineChain
+import Lemmas.SkelAck
 /-! SkeletonRef — the regenerated skeleton, INTERPRETED, refines the component machines: statements for ALL schedules.
 
 `Props/Skeleton.lean` establishes facts about every control path of the skeleton extracted on this run (C1).  Here
@@ -37,5 +38,61 @@ theorem chain_ok_every_schedule (store : List LogE) (h0 : Chain.ChainOK store) (
   have hi := runOn_inv Chain.step Chain.Inv Chain.step_inv tr _ s (Chain.reinit_inv store h0) hs
   have := hi.chain
   simpa [Chain.all, hd, hp] using this
+
+-- ------------------------------------------------------------------------------------------------ Ack (C06)
+
+/-- the kind of write of each entry point -/
+def epKind : String → Kind
+  | "CreateTransaction" => .create
+  | "RevertTransaction" => .revert
+  | "SaveMeta" => .setMeta
+  | _ => .delMeta
+
+/-- every path of the generated skeleton has the order of steps `Ack` needs (`SkelAutoAck`) -/
+theorem ack_shape_generated :
+    entryPoints.all (fun e => (paths e.1 e.2).all (fun p => (AckRef.arun (epKind e.1) {} (tagged p)).isSome)) = true := by
+  decide +kernel
+
+/-- … and the automaton is not trivially accepting: answering before the wait is refused -/
+example : (AckRef.arun .create {} [.choose "dry" false, .act .chainLog .ok .direct, .act (.append "chained" ["c"]) .ok .direct,
+    .act (.answer (.of "chained" "")) .ok .direct, .fin true ""]).isSome = false := by decide
+
+/-- a request as `Ack` sees it: a path of its entry point, a write of that entry point's kind, `dry` as announced -/
+def AdmittedA (dry : Nat → Bool) (j : Sys.Job) (p : Path) : Prop :=
+  Admitted j p ∧ j.req.kind = epKind j.ep ∧ j.req.dry = dry j.a
+
+theorem admitted_ack_shape (dry : Nat → Bool) (j : Sys.Job) (p : Path) (h : AdmittedA dry j p) :
+    (AckRef.arun j.req.kind {} p).isSome = true ∧ j.req.dry = dry j.a := by
+  obtain ⟨⟨e, he, hej, p0, hp0, rfl⟩, hk, hd⟩ := h
+  refine ⟨?_, hd⟩
+  have h1 := List.all_eq_true.1 ack_shape_generated e he
+  have h2 := List.all_eq_true.1 h1 p0 hp0
+  rw [hk, ← hej]
+  exact h2
+
+/-- **C06 for every schedule of the regenerated skeleton** (interleaving at every action).  From a store in which
+metadata logs carry no transaction id: whatever the interleaving, the batch boundaries, the store failures and the
+crashes, the trace is accepted by the `Ack` machine — no request commits twice or as a preview, none is woken or
+answered before its log is persisted, an answer carries the transaction of the entry it stands for, an error is only
+returned by a request that appended nothing — and the machine's store and queue are the system's. -/
+theorem ack_accepts_every_schedule (dry : Nat → Bool) (store : List LogE)
+    (hk : ∀ l ∈ store, (l.kind = .setMeta ∨ l.kind = .delMeta) → l.txid = none)
+    (tr : List Ev) (st : Sys.State) (h : Sys.Run (AdmittedA dry) (Sys.init store) tr st) :
+    ∃ s, runOn (Ack.step dry) (Ack.init store) tr = .ok s ∧ s.durable = st.sh.store ∧ s.pending = st.sh.queue := by
+  obtain ⟨s, hs, hi⟩ := AckRef.run_refines dry (AdmittedA dry) (admitted_ack_shape dry) _ _ _ h _ (AckRef.init_inv dry store hk)
+  exact ⟨s, hs, hi.dur, hi.pend⟩
+
+/-- … hence (with C06's invariant) in every reachable state of the interpreted skeleton every acknowledged write is in
+the store, and a request that was answered an error left no log -/
+theorem acknowledged_is_persisted_every_schedule (dry : Nat → Bool) (store : List LogE)
+    (hk : ∀ l ∈ store, (l.kind = .setMeta ∨ l.kind = .delMeta) → l.txid = none)
+    (tr : List Ev) (st : Sys.State) (h : Sys.Run (AdmittedA dry) (Sys.init store) tr st) :
+    ∃ s, runOn (Ack.step dry) (Ack.init store) tr = .ok s ∧
+      (∀ x ∈ s.acks, x.entry ∈ st.sh.store ∧ dry x.a = false) ∧ (∀ a ∈ s.errs, ∀ l, (a, l) ∉ s.mine) := by
+  obtain ⟨s, hs, hd, _⟩ := ack_accepts_every_schedule dry store hk tr st h
+  have hi := Ack.run_inv dry tr _ s (Ack.init_inv dry store) hs
+  refine ⟨s, hs, fun x hx => ?_, hi.clean⟩
+  have := hi.acked x hx
+  exact ⟨hd ▸ this.1, this.2.2⟩
 
 end SkeletonRef
